@@ -192,7 +192,7 @@ def export_world_edges(consts):
         if "Events" not in consts:
             consts = dict(consts, Events="FALSE")
         f.write("SPECIFICATION Spec\nCONSTANTS\n" + "".join("  %s = %s\n" % kv for kv in consts.items()) +
-                "  Edges = TRUE\nINVARIANTS RepInv CrossWorldSafe EventsOk\nCHECK_DEADLOCK FALSE\n")
+                "  Edges = TRUE\nINVARIANTS RepInv CrossWorldSafe EventsOk\nPROPERTY RefinesW\nCHECK_DEADLOCK FALSE\n")
     rc, out, dt = run_tlc("WorldMC", cfg=cfg, workers=8, timeout=3000)
     if "No error has been found" not in out:
         raise ToolError("WorldMC failed:\n" + out[-3000:])
